@@ -18,9 +18,12 @@ ASSUMPTIONS = [
     "conditions; the composed query, the flattened query (conditions inlined) and the reference are compared in one path",
     "operand position: y.f <op> SUB.g with SUB = an(entity(x, c)) restricts x to c's solutions (exists-semantics); for "
     "SUB = the(entity(x, c)) the obligation is only stated when c has exactly one solution (otherwise the(...) may raise)",
+    "correlated operand (corr): SUB = quant(entity(x, x.c == y.c, c)) mentions the enclosing variable y; solutions are counted per "
+    "binding of y; a correlated the(...) is only written to the RIGHT of y's own operand (bound before it is reached)",
     "predicate-form argument: Holder(From(hs), p=an(entity(x, c)))",
 ]
-BOUNDS = {"quick": dict(domains="3 / 2x2", sub_conditions="L<=2", connectives="& | and_ or_, nesting depth 2"),
+BOUNDS = {"quick": dict(domains="3 / 2x2", sub_conditions="L<=2", connectives="& | and_ or_, nesting depth 2",
+                        operands="uncorrelated and correlated sub-queries, an / the, alone and combined with | &"),
           "thorough": dict(domains="3 / 2x2 / 3x2", sub_conditions="L<=2, trees of 3 sub-queries")}
 LIMITS = {"quick": dict(max_paths=10000, max_wall=90), "thorough": dict(max_paths=100000, max_wall=600)}
 FIDELITY_EVERY = {"quick": 3, "thorough": 2}
@@ -112,9 +115,19 @@ class C15(Case):
                     x = let(Item, domain=xs)
                     y = let(Other, domain=ys)
                     quant = an if sp["quant"] == "an" else the
-                    sub = quant(entity(x, S.build(sp["c"], {"x": x})))
+                    if sp.get("corr"):
+                        # a CORRELATED sub-query: its condition mentions the enclosing query's variable
+                        sub = quant(entity(x, x.c == y.c, S.build(sp["c"], {"x": x})))
+                    else:
+                        sub = quant(entity(x, S.build(sp["c"], {"x": x})))
                     lhs, rhs = getattr(y, sp["yf"]), getattr(sub, sp["xf"])
                     cond = OPS[sp["op"]](lhs, rhs) if sp.get("side", "r") == "r" else OPS[sp["op"]](rhs, lhs)
+                    if sp.get("disj") == "r":
+                        cond = cond | (y.c > 0)
+                    elif sp.get("disj") == "l":
+                        cond = (y.c > 0) | cond
+                    elif sp.get("disj") == "and":
+                        cond = (y.c > 0) & cond
                     q = an(entity(y, cond))
                 try:
                     res = list(q.evaluate())
@@ -154,21 +167,29 @@ class C15(Case):
         obs = []
         if kind == "operand":
             ys = data["ys"]
+            if sp.get("corr"):
+                sol = {j: [alg.and_(cx[i], alg.cmp("eq", xo.c, yo.c)) for i, xo in enumerate(xs)] for j, yo in enumerate(ys)}
+            else:
+                sol = {j: cx for j in range(len(ys))}
             if outcome[0] == "the_raised":
-                cnt = alg.count(cx)
                 if outcome[1] == "MultipleSolutionFound":
-                    return [("the_raises_multiple_only_with_two_or_more", alg.int_ge(cnt, 2))]
-                return [("the_raises_none_only_with_zero", alg.int_eq(cnt, 0))]
+                    return [("the_raises_multiple_only_with_two_or_more", alg.or_(*[alg.int_ge(alg.count(sol[j]), 2) for j in sol]))]
+                return [("the_raises_none_only_with_zero", alg.or_(*[alg.int_eq(alg.count(sol[j]), 0) for j in sol]))]
             rows = outcome[1]
             obs.append(("rows_are_outer_objects", alg.const(all(i >= 0 for i in rows))))
-            guard = alg.const(True) if sp["quant"] == "an" else alg.int_eq(alg.count(cx), 1)
+            guard = alg.const(True) if sp["quant"] == "an" else alg.and_(*[alg.int_eq(alg.count(sol[j]), 1) for j in sol])
             for j, yo in enumerate(ys):
                 terms = []
                 for i, xo in enumerate(xs):
                     a_, b_ = getattr(yo, sp["yf"]), getattr(xo, sp["xf"])
                     cmp = alg.cmp(sp["op"], a_, b_) if sp.get("side", "r") == "r" else alg.cmp(sp["op"], b_, a_)
-                    terms.append(alg.and_(cx[i], cmp))
-                obs.append(("outer_%d" % j, alg.implies(guard, alg.iff(alg.const(j in rows), alg.or_(*terms)))))
+                    terms.append(alg.and_(sol[j][i], cmp))
+                want = alg.or_(*terms)
+                if sp.get("disj") in ("l", "r"):
+                    want = alg.or_(want, alg.cmp("gt", yo.c, 0))
+                elif sp.get("disj") == "and":
+                    want = alg.and_(want, alg.cmp("gt", yo.c, 0))
+                obs.append(("outer_%d" % j, alg.implies(guard, alg.iff(alg.const(j in rows), want))))
             return obs
         hs = data["hs"]
         rows = outcome[1]
@@ -249,6 +270,20 @@ def shapes(tier, seed):
             for op in ("eq", "lt", "ne", "ge"):
                 out.append(dict(kind="operand", quant=quant, c=c, op=op, yf="a", xf="b"))
             out.append(dict(kind="operand", quant=quant, c=c, op="gt", yf="b", xf="a", side="l"))
+    # correlated sub-query as operand (its condition mentions the enclosing variable)
+    for quant in ("an", "the"):
+        for c in core[:2]:
+            for op in ("eq", "lt", "ne"):
+                out.append(dict(kind="operand", quant=quant, c=c, op=op, yf="a", xf="b", corr=True, ny=2 if quant == "an" else 3))
+        if quant == "an":
+            # (a correlated the(...) written to the LEFT of the variable it depends on is evaluated before that variable is
+            # bound and counts solutions over both variables: what "exactly one" means there is not fixed by the statement)
+            out.append(dict(kind="operand", quant=quant, c=core[0], op="gt", yf="b", xf="a", side="l", corr=True))
+    # the comparison with a sub-query operand combined with another condition on the outer variable
+    for d in ("l", "r", "and"):
+        for op in ("eq", "lt"):
+            out.append(dict(kind="operand", quant="an", c=core[0], op=op, yf="a", xf="b", disj=d))
+        out.append(dict(kind="operand", quant="the", c=core[1], op="eq", yf="a", xf="b", disj=d))
     # predicate-form argument
     for c in core[:5] + [["or", core[0], core[1]]]:
         out.append(dict(kind="argument", c=c))
